@@ -994,6 +994,133 @@ pub mod transport {
     }
 }
 
+// =============================================================== readers of the network / transport headers
+
+pub mod readers {
+    use super::*;
+    use std::io::Cursor;
+
+    // One function per reader (not one body generic over a const selector: a witness in an arm that is dead for an
+    // instantiation comes back UNSATISFIABLE). Input: a reader over an exact-size buffer; afterwards the accessors
+    // that touch variable parts are called (an over-long option length written by the reader would show there).
+
+    pub fn rd_ipv4() {
+        let t = Tight::<64>::new(any_le(64));
+        let mut c = Cursor::new(t.slice());
+        if let Ok(h) = Ipv4Header::read(&mut c) {
+            witness!(h.options.len() > 0, "ok_options");
+            assert!(h.options.len() <= 40 && h.header_len() <= 60);
+            sink(h.to_bytes().len());
+        }
+    }
+
+    /// documented: the version is not checked by this function - every first byte is a legal argument
+    pub fn rd_ipv4_without_version() {
+        let t = Tight::<64>::new(any_le(64));
+        let mut c = Cursor::new(t.slice());
+        let first: u8 = any();
+        match Ipv4Header::read_without_version(&mut c, first) {
+            Ok(h) => {
+                witness!(first >> 4 != 4, "ok_other_version_nibble");
+                assert!(h.options.len() <= 40 && h.header_len() <= 60, "C01: option length beyond the option buffer");
+                sink(h.to_bytes().len());
+            }
+            Err(e) => core::mem::forget(e),
+        }
+    }
+
+    pub fn rd_ipv6() {
+        let t = Tight::<44>::new(any_le(44));
+        let mut c = Cursor::new(t.slice());
+        if let Ok(h) = Ipv6Header::read(&mut c) {
+            witness!(true, "ok");
+            sink(h.to_bytes());
+        }
+        let mut c2 = Cursor::new(t.slice());
+        let nib: u8 = any();
+        if let Ok(h) = Ipv6Header::read_without_version(&mut c2, nib) {
+            sink(h.to_bytes());
+        }
+    }
+
+    pub fn rd_auth() {
+        let t = Tight::<28>::new(any_le(28));
+        let mut c = Cursor::new(t.slice());
+        match IpAuthHeader::read(&mut c) {
+            Ok(h) => {
+                witness!(h.raw_icv().len() > 0, "ok_icv");
+                assert!(h.header_len() == 12 + h.raw_icv().len());
+            }
+            Err(e) => core::mem::forget(e),
+        }
+    }
+
+    pub fn rd_raw_ext() {
+        let t = Tight::<28>::new(any_le(28));
+        let mut c = Cursor::new(t.slice());
+        match Ipv6RawExtHeader::read(&mut c) {
+            Ok(h) => {
+                witness!(h.payload().len() > 6, "ok_long");
+                assert!(h.header_len() == 2 + h.payload().len());
+            }
+            Err(e) => core::mem::forget(e),
+        }
+    }
+
+    pub fn rd_frag_udp() {
+        let t = Tight::<12>::new(any_le(12));
+        let mut c = Cursor::new(t.slice());
+        if let Ok(h) = Ipv6FragmentHeader::read(&mut c) {
+            witness!(true, "ok_frag");
+            sink(h.to_bytes());
+        }
+        let mut c2 = Cursor::new(t.slice());
+        if let Ok(h) = UdpHeader::read(&mut c2) {
+            sink(h.to_bytes());
+        }
+    }
+
+    pub fn rd_tcp() {
+        let t = Tight::<64>::new(any_le(64));
+        let mut c = Cursor::new(t.slice());
+        match TcpHeader::read(&mut c) {
+            Ok(h) => {
+                witness!(h.options.len() > 0, "ok_options");
+                assert!(h.options.len() <= 40 && h.header_len() <= 60);
+            }
+            Err(e) => core::mem::forget(e),
+        }
+    }
+
+    pub fn rd_icmp() {
+        let t = Tight::<24>::new(any_le(24));
+        let mut c = Cursor::new(t.slice());
+        match Icmpv4Header::read(&mut c) {
+            Ok(h) => {
+                witness!(true, "ok_v4");
+                sink(h.header_len());
+            }
+            Err(e) => core::mem::forget(e),
+        }
+        let mut c2 = Cursor::new(t.slice());
+        match Icmpv6Header::read(&mut c2) {
+            Ok(h) => sink(h.header_len()),
+            Err(e) => core::mem::forget(e),
+        }
+    }
+
+    crate::harnesses! {
+        c01_rd_ipv4 = rd_ipv4; unwind 4,
+        c01_rd_ipv4_without_version = rd_ipv4_without_version; unwind 4,
+        c01_rd_ipv6 = rd_ipv6; unwind 4,
+        c01_rd_auth = rd_auth; unwind 4,
+        c01_rd_raw_ext = rd_raw_ext; unwind 4,
+        c01_rd_frag_udp = rd_frag_udp; unwind 4,
+        c01_rd_tcp = rd_tcp; unwind 4,
+        c01_rd_icmp = rd_icmp; unwind 4,
+    }
+}
+
 // =============================================================== whole packets (thorough tier)
 
 pub mod packet {
